@@ -238,6 +238,37 @@ def run_impl(domain, lines, args=(), timeout=600, race=False, env=None, cwd=None
     return p.returncode, out, p.stderr
 
 
+class Interactive:
+    """Line-at-a-time conversation with the harness (the generator can look at the real state)."""
+    def __init__(self, domain, args=(), race=False, env=None, cwd=None):
+        exe = os.path.join(BUILD, "hbin_race" if race else "hbin")
+        e = dict(os.environ)
+        if env:
+            e.update(env)
+        self.p = subprocess.Popen([exe, domain] + list(args), stdin=subprocess.PIPE, stdout=subprocess.PIPE,
+                                  stderr=subprocess.DEVNULL, text=True, bufsize=1, env=e, cwd=cwd)
+        self.lines, self.outs = [], []
+
+    def send(self, obj):
+        line = obj if isinstance(obj, str) else json.dumps(obj)
+        self.p.stdin.write(line + "\n")
+        self.p.stdin.flush()
+        out = self.p.stdout.readline()
+        if out == "":
+            raise RuntimeError("harness died on: " + line[:300])
+        out = out.rstrip("\n")
+        self.lines.append(line)
+        self.outs.append(out)
+        return out
+
+    def close(self):
+        try:
+            self.p.stdin.close()
+            self.p.wait(timeout=20)
+        except Exception:
+            self.p.kill()
+
+
 def run_model(domain, lines, base=False, timeout=600):
     exe = os.path.join(LEAN, ".lake", "build", "bin", "zdriver")
     p = subprocess.run([exe, domain] + (["--base"] if base else []), input="\n".join(lines) + "\n",
